@@ -61,7 +61,17 @@ import (
 // beyond 2^32 ms, chains of re-acquires by the holder, clock advances to the lease boundary, to
 // the bare "seconds" mark and to half of the lease, caller contexts (none, explicit Background,
 // value-carrying, timeouts, far / past deadlines, cancelled before and in the middle of the
-// call), transport faults incl. error replies of several identities, store constructors.
+// call), transport faults incl. error replies of several identities, store constructors, loss of
+// the server's script cache (data kept, store reachable; every member) and restarts of the server
+// with its data (faulty members).
+//
+// Script cache: Acquire and Release run Lua scripts by hash.  A server can lose its script cache
+// while keeping its data and staying reachable (SCRIPT FLUSH, failover to a replica, restart with
+// persistence behind a proxy); it then answers NOSCRIPT to EVALSHA and the client has to send the
+// script itself.  That is no fault of the store: the statement's "Acquire succeeds ...", "re-acquiring
+// by the holder refreshes", "Release frees the key when called by the holder" keep applying, so in a
+// run without injected faults a call whose own context has not ended must not come back with an
+// error (classes acquire-error-store-healthy[/script-cache-lost], release-error-store-healthy[...]).
 
 const ms = time.Millisecond
 
@@ -113,6 +123,7 @@ type client struct {
 
 	op    int
 	execs []execRec
+	noscr int // NOSCRIPT replies the server gave to the current call
 
 	// hold interval of the most recent grant: [from, until), ended early by a successful release
 	holdActive  bool
@@ -144,6 +155,10 @@ type world struct {
 	log      []string
 	newStore func(kind int) *redis.Redis
 	maxSec   int
+	lost     int // times the server lost its script cache so far (restarts included)
+	// a verdict about a script executed by a task that is no client of the harness has been given
+	// (lock-script-outside-call / lock-script-by-unknown-caller)
+	foreignVerdict bool
 }
 
 func (w *world) fail(class, format string, a ...any) {
@@ -216,6 +231,7 @@ func (w *world) onExec(e *simredis.Exec) {
 		if w.void {
 			return
 		}
+		w.foreignVerdict = true
 		for _, c := range w.cls {
 			if len(a) >= 5 && c.idKnown && c.id == a[4] && c.k.name == a[3] {
 				w.fail("lock-script-outside-call", "a lock script with the id of instance %d was executed on %s at %v by a task that is not inside an Acquire/Release call of that instance (%d words, answer %q): the lease of an instance may only change through its own calls", c.idx, c.k.label, e.At, len(a), w.scrub(rep))
@@ -227,6 +243,10 @@ func (w *world) onExec(e *simredis.Exec) {
 	}
 	if strings.HasPrefix(rep, "-NOSCRIPT") {
 		r.Probe("noscript-fallback")
+		cl.noscr++
+		if w.lost > 0 {
+			r.Probe("noscript-after-script-cache-loss")
+		}
 		return
 	}
 	want := 6
@@ -569,6 +589,14 @@ func (w *world) drawCtx(cl *client) (context.Context, context.CancelFunc, string
 // onSend runs on the sending task when a command leaves the client.
 func (w *world) onSend(c *simredis.Cmd) {
 	cl := w.byTask[c.Task]
+	if cl == nil && w.foreignVerdict {
+		// The verdict on this run is in (a lock script was executed by a task that is no client of
+		// the harness).  Such a task can go on for as long as the clients sleep - a renewal loop
+		// ticking every 166 ms under a client that waits for the end of a lease of days - and use up
+		// the step budget of the run, which would turn the verdict into an engine error: park it.
+		w.r.Probe("foreign-task-parked-after-verdict")
+		w.r.Sleep(200 * 365 * 24 * time.Hour)
+	}
 	if cl == nil || cl.op == opNone || cl.cancelAt == 0 {
 		return
 	}
@@ -601,6 +629,30 @@ func (w *world) errProbe(err error) {
 	}
 }
 
+// healthyStoreError judges an error that Acquire / Release returned.  In a run without injected
+// faults the store is reachable and healthy the whole time (no transport fault, no refused dial,
+// no outage, no restart; losing the script cache is none of these: the server keeps answering and
+// keeps its data), so the only reasons for a call not to do what the statement says are the
+// caller's own context having ended and go-zero's breaker (counted, not judged here).
+func (w *world) healthyStoreError(cl *client, op, class string, err error, ctxEnded bool) {
+	r := w.r
+	switch {
+	case w.faulty:
+		return
+	case ctxEnded:
+		r.Probe("fault-free-run-error-by-own-context")
+		return
+	case errors.Is(err, breaker.ErrServiceUnavailable):
+		r.Probe("fault-free-run-error-breaker-open")
+		return
+	}
+	if cl.noscr > 0 && len(cl.execs) == 0 {
+		w.fail(class+"-error-store-healthy/script-cache-lost", "instance %d %s on %s at %v failed (%s) in a run without any injected fault, with a live context: the reachable server answered NOSCRIPT %d time(s) to this call and the script was never executed for it (script cache lost %d time(s) so far in this run; data kept, store reachable)", cl.idx, op, cl.k.label, r.Elapsed(), w.scrub(err.Error()), cl.noscr, w.lost)
+		return
+	}
+	w.fail(class+"-error-store-healthy", "instance %d %s on %s at %v failed (%s) in a run without any injected fault, with a live context (server executions of the script in this call: %d)", cl.idx, op, cl.k.label, r.Elapsed(), w.scrub(err.Error()), len(cl.execs))
+}
+
 func b2i(b bool) int64 {
 	if b {
 		return 1
@@ -620,7 +672,7 @@ func (w *world) note(cl *client, format string, a ...any) {
 func (w *world) acquire(cl *client) (ok bool, err error, inv, L time.Duration) {
 	r := w.r
 	ctx, cancel, how := w.drawCtx(cl)
-	cl.op, cl.execs = opAcquire, cl.execs[:0]
+	cl.op, cl.execs, cl.noscr = opAcquire, cl.execs[:0], 0
 	inv, L = r.Elapsed(), lease(cl)
 	cl.nAcq++
 	if ctx == nil {
@@ -631,10 +683,12 @@ func (w *world) acquire(cl *client) (ok bool, err error, inv, L time.Duration) {
 			r.Probe("call-returned-no-error-although-ctx-ended-mid-call")
 		}
 	}
+	ctxEnded := ctx != nil && ctx.Err() != nil
 	cancel()
 	cl.op, cl.cancelAt = opNone, 0
 	if err != nil {
 		w.errProbe(err)
+		w.healthyStoreError(cl, "Acquire", "acquire", err, ctxEnded)
 	}
 	n := len(cl.execs)
 	r.Ev("acquire", int64(cl.idx), b2i(ok), b2i(err != nil), int64(n))
@@ -664,7 +718,7 @@ func (w *world) acquire(cl *client) (ok bool, err error, inv, L time.Duration) {
 func (w *world) release(cl *client) {
 	r := w.r
 	ctx, cancel, how := w.drawCtx(cl)
-	cl.op, cl.execs = opRelease, cl.execs[:0]
+	cl.op, cl.execs, cl.noscr = opRelease, cl.execs[:0], 0
 	cl.nRel++
 	var ok bool
 	var err error
@@ -673,10 +727,12 @@ func (w *world) release(cl *client) {
 	} else {
 		ok, err = cl.lock.ReleaseCtx(ctx)
 	}
+	ctxEnded := ctx != nil && ctx.Err() != nil
 	cancel()
 	cl.op, cl.cancelAt = opNone, 0
 	if err != nil {
 		w.errProbe(err)
+		w.healthyStoreError(cl, "Release", "release", err, ctxEnded)
 	}
 	n := len(cl.execs)
 	r.Ev("release", int64(cl.idx), b2i(ok), b2i(err != nil), int64(n))
@@ -996,6 +1052,36 @@ func body(r *simrt.Run, tier string) {
 	if t.Bool() {
 		spelling = t.Intn(len(keySpellings))
 	}
+	// script cache lost (every member; 0 = never): per command that leaves a client - the cache is
+	// emptied just before that command reaches the server - and / or at instants on the clock;
+	// faulty members: restarts of the server with its data (connections reset, script cache empty)
+	lossPM := []int{0, 0, 0, 0, 30, 250, 1000}[t.Intn(7)]
+	var lossGaps, restartGaps []time.Duration
+	gap := func() time.Duration {
+		if t.Bool() {
+			return time.Duration(t.Intn(3000)) * ms
+		}
+		return time.Duration(t.Intn(50)) * ms
+	}
+	if t.Chance(1, 4) {
+		for n := t.Range(1, 3); n > 0; n-- {
+			lossGaps = append(lossGaps, gap())
+		}
+	}
+	if w.faulty && t.Chance(1, 4) {
+		for n := t.Range(1, 2); n > 0; n-- {
+			restartGaps = append(restartGaps, gap())
+		}
+	}
+	scriptsLost := func(when string) {
+		w.lost++
+		srv.FlushScripts()
+		r.Ev("scripts-lost")
+		r.Probe("script-cache-lost-" + when)
+		if r.Tracing() {
+			r.Logf("  server@%v: SCRIPT CACHE LOST (%s); data kept, store reachable", r.Elapsed(), when)
+		}
+	}
 	enabled := true
 	outages := 0
 	var rates simredis.Rates
@@ -1049,6 +1135,17 @@ func body(r *simrt.Run, tier string) {
 				return true
 			}
 			return false
+		}
+	}
+	if lossPM > 0 {
+		inner := srv.Fault
+		srv.Fault = func(c *simredis.Cmd) simredis.Fault {
+			if !c.Handshake() {
+				if v := t.Intn(1000); v > 0 && v <= lossPM {
+					scriptsLost("as-command-left")
+				}
+			}
+			return inner(c)
 		}
 	}
 	srv.OnExec = w.onExec
@@ -1117,7 +1214,7 @@ func body(r *simrt.Run, tier string) {
 		r.Probe("five-or-six-instances-run")
 	}
 	if r.Tracing() {
-		r.Logf("c19: instances=%d keys=%d (%s, %s) steps=%v faulty=%v rates=%+v outages=%d dialRefusePerMille=%d overstay=%v wide=%v perInstanceStore=%v", nInst, nKeys, show(keySpellings[spelling][0]), show(keySpellings[spelling][1]), steps, w.faulty, rates, outages, dialRate, w.overstay, w.wide, perInstanceStore)
+		r.Logf("c19: instances=%d keys=%d (%s, %s) steps=%v faulty=%v rates=%+v outages=%d dialRefusePerMille=%d overstay=%v wide=%v perInstanceStore=%v scriptCacheLostPerMille=%d at=%v restarts=%v", nInst, nKeys, show(keySpellings[spelling][0]), show(keySpellings[spelling][1]), steps, w.faulty, rates, outages, dialRate, w.overstay, w.wide, perInstanceStore, lossPM, lossGaps, restartGaps)
 	}
 	var tasks []*simrt.Task
 	for i, cl := range w.cls {
@@ -1136,6 +1233,29 @@ func body(r *simrt.Run, tier string) {
 			}
 		})
 	}
+	var lossTasks []*simrt.Task
+	if len(lossGaps) > 0 {
+		lossTasks = append(lossTasks, r.Go("script-cache", func() {
+			for _, g := range lossGaps {
+				r.Sleep(g)
+				scriptsLost("at-drawn-instant")
+			}
+		}))
+	}
+	if len(restartGaps) > 0 {
+		lossTasks = append(lossTasks, r.Go("restarts", func() {
+			for _, g := range restartGaps {
+				r.Sleep(g)
+				w.lost++
+				srv.Restart()
+				r.Ev("restart")
+				r.Probe("server-restarted-with-data")
+				if r.Tracing() {
+					r.Logf("  server@%v: RESTART with persisted data (connections reset, script cache empty)", r.Elapsed())
+				}
+			}
+		}))
+	}
 	// every step of a client takes a bounded number of calls, retries and think times; the think
 	// times and critical sections are bounded by the longest lease configured in the run
 	patience := 3 * time.Hour
@@ -1149,6 +1269,7 @@ func body(r *simrt.Run, tier string) {
 	if outTask != nil {
 		r.Join(outTask)
 	}
+	r.Join(lossTasks...)
 	// faults off; after every lease has run out anybody can acquire
 	enabled = false
 	down = false
@@ -1198,7 +1319,8 @@ func body(r *simrt.Run, tier string) {
 		r.Probe("nontrivial")
 	}
 	r.Sample(map[string]any{"instances": nInst, "instances_incl_replacements": len(w.cls), "keys": nKeys, "key_spelling": spelling, "longest_seconds_configured": w.maxSec, "wide": w.wide, "steps_per_client": steps, "faulty": w.faulty, "clients_overstay_lease": w.overstay,
-		"acquires": nA, "releases": nR, "server_executions": srv.Executed(), "faults_fired": srv.FiredMap(), "history_head": w.log})
+		"acquires": nA, "releases": nR, "server_executions": srv.Executed(), "script_cache_lost_per_mille_of_commands": lossPM, "script_cache_lost_at_drawn_instants": len(lossGaps), "restarts_with_data": len(restartGaps), "script_cache_lost": w.lost,
+		"faults_fired": srv.FiredMap(), "history_head": w.log})
 }
 
 func TestSim(t *testing.T) {
